@@ -13,7 +13,7 @@ RULE = {"C09": "generated owner classes with 1-6 tunables (defaults of every sup
                "python writes/reads and NetworkTables-side writes/reads through independent publishers/subscribers.  Non-trivial = "
                ">=2 tunables and >=1 NetworkTables-side write observed from python and >=1 python write observed from "
                "NetworkTables; distinct = hash of (definition, history)."}
-REQUIRED = {"C09": {"type:boolean": 50, "type:int": 50, "type:double": 50, "type:string": 50, "type:raw": 20, "type:struct:Rotation2d": 20,
+REQUIRED = {"C09": {"falsy-owner": 100, "type-hint-on-base-class": 20, "writeDefault-true-overwrites-nearly-equal-struct": 10, "type:boolean": 50, "type:int": 50, "type:double": 50, "type:string": 50, "type:raw": 20, "type:struct:Rotation2d": 20,
                     "type:boolean[]": 20, "type:int[]": 20, "type:double[]": 20, "type:string[]": 20, "type:struct:Rotation2d[]": 10,
                     "empty-hinted": 30, "writeDefault-true-overwrites": 50, "writeDefault-false-preserves": 50, "writeDefault-false-preserves-falsy": 10, "subtable": 100, "redefines-inherited-tunable": 30, "base-class-instance-bound-first": 30, "statemachine-owner": 50, "negative-duration-value": 30,
                     "rebound-under-used-name": 50,
@@ -83,12 +83,21 @@ def pre_value(t, ii):
     base = {"hintfloat": "float", "hintfloat[]": "float[]"}.get(base, base)
     if t.get("pre_falsy") and base in FALSY and norm(FALSY[base]) != norm(value_of(t["kind"], 0)):
         return FALSY[base]
+    if t.get("pre_near") and base in ("rot", "rot[]"):
+        # a pre-existing struct value that the struct's own (tolerance-based) == calls equal to the default, but is another value
+        from wpimath.geometry import Rotation2d
+        import math
+        d = value_of(t["kind"], 0)
+        off = (2 * math.pi, 5e-10)[ii % 2]
+        return Rotation2d(d.radians() + off) if base == "rot" else [Rotation2d(x.radians() + off) for x in d]
     return value_of(t["kind"], 1000 + ii)
 
 
 def norm(v):
     if isinstance(v, (list, tuple)):
         return [norm(x) for x in v]
+    if hasattr(v, "radians"):
+        return ("rot", v.radians())          # by field: the geometry types' own == is tolerance-based
     if isinstance(v, int) and not isinstance(v, bool):
         return float(v) if False else v
     return v
@@ -101,7 +110,7 @@ def gen_case(rng, uid):
         kind = rng.choice(KINDS)
         t = {"attr": f"t{j}{uid}", "kind": kind, "writeDefault": rng.random() < 0.6, "subtable": rng.choice([None, None, "sub", "a/b"]),
              "as_tuple": rng.random() < 0.3, "spelling": rng.randrange(3), "preexisting": rng.random() < 0.4, "pre_falsy": rng.random() < 0.4,
-             "overrides_inherited": rng.random() < 0.15}
+             "overrides_inherited": rng.random() < 0.15, "pre_near": rng.random() < 0.5, "hint_on_base": rng.random() < 0.3}
         tun.append(t)
     via_robot = rng.random() < 0.2
     if via_robot:
@@ -130,7 +139,8 @@ def gen_case(rng, uid):
             ops.append([k, i, t])
         if rng.random() < 0.2:
             ops.append(["adv", rng.choice([0, 1, 20000])])
-    case = {"uid": uid, "owner": owner, "tunables": tun, "instances": instances, "ops": ops, "base_instance_first": rng.random() < 0.3}
+    case = {"uid": uid, "owner": owner, "tunables": tun, "instances": instances, "ops": ops, "base_instance_first": rng.random() < 0.3,
+            "truth": rng.choice([None, None, None, None, None, "len0", "boolFalse"])}
     if owner in ("direct", "component", "component2") and rng.random() < 0.3:
         # the owner is a magicbot.StateMachine: its timed state's duration is a tunable like any other
         # (/components/N/state/<state>_duration), including values a dashboard user may type that make no sense (negative)
@@ -171,7 +181,21 @@ def build_class(case, base=None):
         lines.append("    @sm_state(first=True)\n    def idle_state(self):\n        pass")
         lines.append("    @sm_timed(duration=0.25)\n    def ts(self):\n        pass")
         lines.append("Base = SMBase")
+    hb = [t for t in case["tunables"] if t.get("hint_on_base") and t["spelling"] == 2 and t["kind"].startswith(("hintfloat", "empty:"))]
+    if hb:
+        # the annotation lives on a base class, the tunable is assigned in the subclass
+        lines.append("class HintBase(Base):")
+        for t in hb:
+            if t["kind"].startswith("hintfloat"):
+                lines.append(f"    {t['attr']}: {'float' if t['kind'] == 'hintfloat' else 'Sequence[float]'}")
+            else:
+                lines.append(f"    {t['attr']}: Sequence[{t['kind'].split(':')[1]}]")
+        lines.append("Base = HintBase")
     lines.append("class Owner(Base):")
+    if case.get("truth") == "len0":
+        lines.append("    def __len__(self):\n        return 0")
+    elif case.get("truth") == "boolFalse":
+        lines.append("    def __bool__(self):\n        return False")
     for t in case["tunables"]:
         kw = f"writeDefault={t['writeDefault']!r}"
         if t["subtable"]:
@@ -186,6 +210,8 @@ def build_class(case, base=None):
                 lines.append(f"    {a} = tunable[{hint}](d_{a}, {kw})")
             elif t["spelling"] == 1:
                 lines.append(f"    {a}: ClassVar[tunable[{hint}]] = tunable(d_{a}, {kw})")
+            elif t in hb:
+                lines.append(f"    {a} = tunable(d_{a}, {kw})")
             else:
                 lines.append(f"    {a}: {hint} = tunable(d_{a}, {kw})")
         elif t["kind"].startswith("empty:"):
@@ -195,6 +221,8 @@ def build_class(case, base=None):
                 lines.append(f"    {a} = tunable[Sequence[{et}]]({empty}, {kw})")
             elif t["spelling"] == 1:
                 lines.append(f"    {a}: ClassVar[tunable[list[{et}]]] = tunable({empty}, {kw})")
+            elif t in hb:
+                lines.append(f"    {a} = tunable({empty}, {kw})")
             else:
                 lines.append(f"    {a}: Sequence[{et}] = tunable({empty}, {kw})")
         else:
@@ -351,6 +379,8 @@ def _run_case(acc, case):
                     want = value_of(t["kind"], 0)
                     if t["preexisting"]:
                         acc.ev("writeDefault-true-overwrites")
+                        if t.get("pre_near") and t["kind"] in ("rot", "rot[]"):
+                            acc.ev("writeDefault-true-overwrites-nearly-equal-struct")
                 reg[(ii, ti)] = want
                 ts = ch.topic_generic.getTypeString()
                 acc.checks += 3
@@ -359,6 +389,10 @@ def _run_case(acc, case):
                     acc.ev("empty-hinted")
                 if t["subtable"]:
                     acc.ev("subtable")
+                if t.get("hint_on_base") and t["spelling"] == 2 and t["kind"].startswith(("hintfloat", "empty:")):
+                    acc.ev("type-hint-on-base-class")
+                if case.get("truth"):
+                    acc.ev("falsy-owner")
                 if t.get("overrides_inherited") and not t["kind"].startswith("empty:"):
                     acc.ev("redefines-inherited-tunable")
                 path = topic_path(inst, t)
